@@ -14,13 +14,13 @@ cd $W
 # 1. clean tree: demo passes
 cp $SRC/out/demo_test.go $W/zz_demo_test.go
 T=$(grep -o 'func TestSeeded[A-Za-z0-9_]*' zz_demo_test.go | head -1 | sed 's/func //')
-if go test -vet=off -count=1 -run "^$T\$" . > $W.clean.txt 2>&1; then res "demo on clean tree: PASS (expected)"; CLEAN=ok; else res "demo on clean tree: FAIL (unexpected)"; CLEAN=bad; fi
+if go test -vet=off -count=1 ${DEMOFLAGS:-} -run "^$T\$" . > $W.clean.txt 2>&1; then res "demo on clean tree: PASS (expected)"; CLEAN=ok; else res "demo on clean tree: FAIL (unexpected)"; CLEAN=bad; fi
 rm -f zz_demo_test.go
 # 2. apply patch: suite passes
 if ! git apply $SRC/out/patch.diff; then res "patch does not apply"; cd /; git -C /repo worktree remove --force $W; exit 2; fi
 if go test -vet=off -count=1 ./... > $W.suite.txt 2>&1; then res "existing suite with change: PASS (expected)"; SUITE=ok; else res "existing suite with change: FAIL (unexpected)"; SUITE=bad; fi
 cp $SRC/out/demo_test.go $W/zz_demo_test.go
-if go test -vet=off -count=1 -run "^$T\$" . > $W.mut.txt 2>&1; then res "demo with change: PASS (unexpected)"; MUT=bad; else res "demo with change: FAIL (expected)"; MUT=ok; fi
+if go test -vet=off -count=1 ${DEMOFLAGS:-} -run "^$T\$" . > $W.mut.txt 2>&1; then res "demo with change: PASS (unexpected)"; MUT=bad; else res "demo with change: FAIL (expected)"; MUT=ok; fi
 rm -f zz_demo_test.go
 # 3. checks against the changed tree
 mkdir -p $W.vout
